@@ -43,8 +43,32 @@ type SimExec struct {
 	// Taken records every tx ever returned by GetTxs to a node (ground truth for C11).
 	Taken [][]byte
 	Stats map[string]int
-	// Latency, when non-zero, is slept (simulated time) in ExecuteTxs (Engine N).
+	// Latency, when non-zero, is slept (simulated time) in ExecuteTxs and SetFinal (Engine N).
 	Latency time.Duration
+	// MaxBytes is the block size limit the execution layer reports (0 = the default 1 MiB). Harness-settable.
+	MaxBytes uint64
+	// FinalScript: per SetFinal call, true = fail with an error.
+	FinalScript []bool
+}
+
+func (e *SimExec) maxBytes() uint64 {
+	if e.MaxBytes == 0 {
+		return 1 << 20
+	}
+	return e.MaxBytes
+}
+
+// MaxFinalized returns the largest height SetFinal succeeded for.
+func (e *SimExec) MaxFinalized() uint64 {
+	e.mu.Lock()
+	defer e.mu.Unlock()
+	var m uint64
+	for _, h := range e.Finalized {
+		if h > m {
+			m = h
+		}
+	}
+	return m
 }
 
 func NewSimExec() *SimExec {
@@ -122,7 +146,7 @@ func (n *NodeExec) InitChain(ctx context.Context, genesisTime time.Time, initial
 		e.inited = true
 	}
 	e.log(ExecCall{Op: "init", Epoch: n.epoch, Height: initialHeight, Root: e.genesis})
-	return append([]byte(nil), e.genesis...), 1 << 20, nil
+	return append([]byte(nil), e.genesis...), e.maxBytes(), nil
 }
 
 func (n *NodeExec) GetTxs(ctx context.Context) ([][]byte, error) {
@@ -192,7 +216,7 @@ func (n *NodeExec) ExecuteTxs(ctx context.Context, txs [][]byte, blockHeight uin
 	call.Root = root
 	e.Stats["exec:ok"]++
 	e.log(call)
-	return append([]byte(nil), root...), 1 << 20, nil
+	return append([]byte(nil), root...), e.maxBytes(), nil
 }
 
 func (n *NodeExec) SetFinal(ctx context.Context, blockHeight uint64) error {
@@ -203,8 +227,23 @@ func (n *NodeExec) SetFinal(ctx context.Context, blockHeight uint64) error {
 		return err
 	}
 	e := n.e
+	if e.Latency > 0 {
+		select {
+		case <-time.After(e.Latency):
+		case <-ctx.Done():
+			return ctx.Err()
+		}
+	}
 	e.mu.Lock()
 	defer e.mu.Unlock()
+	if len(e.FinalScript) > 0 {
+		fail := e.FinalScript[0]
+		e.FinalScript = e.FinalScript[1:]
+		if fail {
+			e.Stats["final:error"]++
+			return errors.New("sim: execution layer cannot finalize right now")
+		}
+	}
 	e.Finalized = append(e.Finalized, blockHeight)
 	e.log(ExecCall{Op: "final", Epoch: n.epoch, Height: blockHeight})
 	return nil
